@@ -143,6 +143,15 @@ def case_estuary(ctx, rng, N):
             fs.append({"kind": "spec", "what": "classify_estuary: cell order is not downstream-first (C03 hypothesis)"})
         if a["pits_ok"] != [1]:
             fs.append({"kind": "spec", "what": "classify_estuary: idxs_pit is not the list of pits in index order"})
+        if a["cover"] != [1]:
+            fs.append({"kind": "spec", "what": "classify_estuary: the cell order does not hold every cell of the network "
+                       "(C03 hypothesis; hcov of estModel_eq_spec)"})
+        if a["model"] != a["spec"]:
+            # proved impossible under topo, cover, pits_ok (estModel_eq_spec): a difference means the build is not the proved one
+            bad = [i for i in range(n) if a["model"][i] != a["spec"][i]]
+            if a["topo"] == [1] and a["cover"] == [1] and a["pits_ok"] == [1]:
+                fs.append({"kind": "model", "what": f"classify_estuary: Lean model != Lean oracle at cells {bad[:6]} although the "
+                           "hypotheses of estModel_eq_spec hold"})
         bad = [i for i in range(n) if impl[i] != a["spec"][i]]
         if bad:
             fs.append({"kind": "spec", "what": f"{desc['op']}: class differs from the flow-path definition (0 outside; estuary = "
@@ -250,6 +259,35 @@ def case_river_depth(ctx, rng, N):
         return
     impl = bits(out)
     shape_ok = tuple(out.shape) == tuple(N.shape)
+    # theorems replayed on the implementation (no model involved): river_depth_ge_min,
+    # river_depth_mono_discharge, river_depth_anti_width. Scaling by 4 is exact in binary floating point and moves
+    # the power law by the factor 4**0.6, far outside rounding, so the comparisons are exact statements.
+    fs0 = []
+    try:
+        with warnings.catch_warnings():
+            warnings.simplefilter("ignore")
+            out_q = N.flw.river_depth(q * 4, w, zs=f(zs), rivdst=f(rivdst), **kw)
+            out_w = N.flw.river_depth(q, w * 4, zs=f(zs), rivdst=f(rivdst), **kw)
+    except Exception as e:  # noqa: BLE001
+        ctx.fail(desc, "spec", f"river_depth: raised {type(e).__name__}: {str(e)[:160]} on a valid input (4*qbankfull / 4*rivwth)")
+        return
+    o, oq, ow = (np.asarray(x, dtype=np.float64).ravel() for x in (out, out_q, out_w))
+    inside = np.array([N.ds[i] != n for i in range(n)], dtype=bool)
+    ctx.count("river_depth:replay-monotone")
+    if inside.any():
+        if not np.all(o[inside] >= float(min_dph)):
+            bad = [int(i) for i in np.flatnonzero(inside & ~(o >= float(min_dph)))[:6]]
+            fs0.append({"kind": "spec", "what": f"river_depth(manning): depth below min_rivdph inside the network at cells {bad} "
+                        f"(river_depth_ge_min)", "impl": o.tolist()})
+        if not np.all(oq[inside] >= o[inside]):
+            bad = [int(i) for i in np.flatnonzero(inside & ~(oq >= o))[:6]]
+            fs0.append({"kind": "spec", "what": f"river_depth(manning): depth decreased when qbankfull was multiplied by 4, at cells "
+                        f"{bad} (river_depth_mono_discharge)", "impl": o.tolist(), "impl_4q": oq.tolist()})
+        if not np.all(ow[inside] <= o[inside]):
+            bad = [int(i) for i in np.flatnonzero(inside & ~(ow <= o))[:6]]
+            fs0.append({"kind": "spec", "what": f"river_depth(manning): depth increased when rivwth was multiplied by 4, at cells "
+                        f"{bad} (river_depth_anti_width)", "impl": o.tolist(), "impl_4w": ow.tolist()})
+        ctx.count("river_depth:replay-strictly-deeper-cells", int(np.sum(oq[inside] > o[inside])))
     # the parameter: power law of every candidate slope at every cell, by the implementation's own expression
     cands = {Fraction(float(min_slp))}
     for i in range(n):
@@ -286,11 +324,17 @@ def case_river_depth(ctx, rng, N):
         if e:
             return e
         a = ans[0]
-        fs = []
+        fs = list(fs0)
         if a["topo"] != [1]:
             fs.append({"kind": "spec", "what": "river_depth: cell order is not downstream-first (C03 hypothesis)"})
         if a["exact"] != [1]:
             return fs + [{"kind": "model", "what": "river_depth: slope scale S does not make the model's divisions exact (harness)"}]
+        if a["cover"] != [1]:
+            fs.append({"kind": "spec", "what": "river_depth: the cell order does not hold every cell of the network "
+                       "(C03 hypothesis; hcov of river_slope_eq_spec)"})
+        if a["hyp"] != [1]:
+            fs.append({"kind": "model", "what": "river_depth: harness sent S, K, min_rivslp outside the hypotheses of "
+                       "river_slope_eq_spec (S, K, den > 0, min_rivslp > -9999)"})
         mslope = [Fraction(p, r) for p, r in zip(a["model.slope.num"], a["model.slope.den"])]
         sslope = [Fraction(p, r) for p, r in zip(a["spec.slope.num"], a["spec.slope.den"])]
         # spec: depth from the flow-path definition of the slope, through the same parameter table
